@@ -181,6 +181,30 @@ C06Swap(pre, e, post) ==
           /\ Sub("traded_prices", t.preSqrtPrice \doteq pre.pool[p].sqrtPrice /\ t.postSqrtPrice \doteq post.pool[p].sqrtPrice)
           /\ Sub("traded_ids", t.aToB = e.args.aToB /\ t.pool = e.slots.whirlpool.id)
 
+(* C06 on pools whose mints charge a Token-2022 transfer fee: the fee split of the swap itself is unchanged - the step fees,
+   the protocol share and LP share booked, the budget bookkeeping and the fee fields of the trade record - and the vault
+   receives at least what the pool books as curve input plus fee (how much more, and what the trader is debited, is C16's
+   business).                                                                                          *)
+C06SwapTf(pre, e, post) ==
+  LET sw == e.swaps[1] p == APool(e) IN
+  /\ Sub("one_swap_record", Len(e.swaps) = 1 /\ sw.done)
+  /\ Sub("step_fee", \A i \in DOMAIN sw.steps : FeeOK(StepX(sw, sw.steps[i]), StepR(sw.steps[i])))
+  /\ Sub("budget_step", \A i \in DOMAIN sw.steps :
+        LET s == sw.steps[i] IN
+          s.remaining1 \doteq (IF sw.exact_in THEN (s.remaining -- s["in"]) -- s.fee ELSE s.remaining -- s.out))
+  /\ Sub("budget_chain", \A i \in 1..(Len(sw.steps) - 1) : sw.steps[i + 1].remaining \doteq sw.steps[i].remaining1)
+  /\ Sub("vault_receives_what_is_booked", SumIn(sw) \preceq Delta(pre, post, InVault(e)))
+  /\ Sub("vault_pays_what_is_booked", (0 -- Delta(pre, post, OutVault(e))) \doteq SumOut(sw))
+  /\ Sub("proto_owed", (IF e.args.aToB THEN post.pool[p].protoA ELSE post.pool[p].protoB)
+        \doteq ((IF e.args.aToB THEN pre.pool[p].protoA ELSE pre.pool[p].protoB) ++ SumCut(sw)))
+  /\ Sub("proto_other", (IF e.args.aToB THEN post.pool[p].protoB ELSE post.pool[p].protoA)
+        \doteq (IF e.args.aToB THEN pre.pool[p].protoB ELSE pre.pool[p].protoA))
+  /\ Sub("lp_growth", (IF e.args.aToB THEN post.pool[p].fgA ELSE post.pool[p].fgB) \doteq GrowthFold(sw))
+  /\ Sub("growth_other", (IF e.args.aToB THEN post.pool[p].fgB ELSE post.pool[p].fgA)
+        \doteq (IF e.args.aToB THEN pre.pool[p].fgB ELSE pre.pool[p].fgA))
+  /\ Sub("has_traded", HasTraded(e))
+  /\ LET t == Traded(e) IN Sub("traded_fees", t.protocolFee \doteq SumCut(sw) /\ t.lpFee \doteq (SumFee(sw) -- SumCut(sw)))
+
 (* C06 for two-hop swaps: each leg's fee is split and booked on ITS pool exactly like a single swap's - protocol
    share added to the protocol fees owed in the leg's input token, LP share folded into that token's growth, the
    other token's counters untouched - and each pool's Traded record reports these amounts.              *)
@@ -1300,6 +1324,7 @@ IxOK(pre, e, post) ==
   /\ IF IsSwapName(e.name)
      THEN /\ Chk("C03", "swap_bounds", C03Swap(pre, e, post))
           /\ Chk("C06", "swap_split", NoTransferFee(pre, APool(e)) => C06Swap(pre, e, post))
+          /\ Chk("C06", "swap_split_with_transfer_fee", ~NoTransferFee(pre, APool(e)) => C06SwapTf(pre, e, post))
      ELSE TRUE
   /\ Chk("C11", "accrual", C11Accrual(pre, e, post))
   /\ IF e.name \in {"set_reward_emissions", "set_reward_emissions_v2"}
